@@ -5,6 +5,65 @@ from ..effects import frames
 from ..pyvc.verify import Source
 
 
+MUTATORS = {'append', 'add', 'update', 'setdefault', 'pop', 'popitem', 'clear', 'extend', 'insert', 'remove', 'discard', 'sort', 'reverse',
+            '__setitem__', 'fill', 'resize', 'put', 'appendleft', 'move_to_end', 'cache_clear'}
+
+
+def module_level_state(tree):
+    """writes from inside a function into an object bound at module level (memo tables, registries, counters): such state
+    survives a call, so a second call with the same arguments need not return the same result.  Also flags memoising decorators."""
+    bad = []
+    modnames = set()
+    for n in tree.body:
+        tg = []
+        if isinstance(n, ast.Assign):
+            tg = n.targets
+        elif isinstance(n, ast.AnnAssign):
+            tg = [n.target]
+        for t in tg:
+            if isinstance(t, ast.Name):
+                modnames.add(t.id)
+
+    def fns(body):
+        for n in body:
+            if isinstance(n, (ast.FunctionDef, ast.AsyncFunctionDef)):
+                yield n
+            elif isinstance(n, ast.ClassDef):
+                for m in fns(n.body):
+                    yield m
+    for fn in fns(tree.body):
+        for d in fn.decorator_list:
+            nm = ast.unparse(d.func if isinstance(d, ast.Call) else d)
+            if nm.split('.')[-1] in ('lru_cache', 'cache', 'cached_property', 'memoize', 'memoized'):
+                bad.append('line %d: %s is memoised by @%s (keyed by object identity / hash, not by content)' % (fn.lineno, fn.name, nm))
+        local = {a.arg for a in fn.args.posonlyargs + fn.args.args + fn.args.kwonlyargs}
+        if fn.args.vararg:
+            local.add(fn.args.vararg.arg)
+        if fn.args.kwarg:
+            local.add(fn.args.kwarg.arg)
+        for x in ast.walk(fn):
+            if isinstance(x, ast.Name) and isinstance(x.ctx, ast.Store):
+                local.add(x.id)
+        glob = set()
+        for x in ast.walk(fn):
+            if isinstance(x, ast.Global):
+                glob |= set(x.names)
+        shared = (modnames - local) | glob
+
+        def root(e):
+            while isinstance(e, (ast.Subscript, ast.Attribute)):
+                e = e.value
+            return e.id if isinstance(e, ast.Name) else None
+        for x in ast.walk(fn):
+            if isinstance(x, (ast.Subscript, ast.Attribute)) and isinstance(x.ctx, (ast.Store, ast.Del)) and root(x.value) in shared:
+                bad.append('line %d: %s stores into the module-level object `%s`' % (x.lineno, fn.name, ast.unparse(x)[:50]))
+            if isinstance(x, ast.AugAssign) and isinstance(x.target, (ast.Subscript, ast.Attribute)) and root(x.target.value) in shared:
+                bad.append('line %d: %s updates the module-level object `%s`' % (x.lineno, fn.name, ast.unparse(x.target)[:50]))
+            if isinstance(x, ast.Call) and isinstance(x.func, ast.Attribute) and x.func.attr in MUTATORS and root(x.func.value) in shared:
+                bad.append('line %d: %s mutates the module-level object `%s`' % (x.lineno, fn.name, ast.unparse(x.func)[:50]))
+    return bad
+
+
 def analytic_is_deterministic():
     out = []
     src, tree = Source.get('EoN/analytic.py')
@@ -16,6 +75,7 @@ def analytic_is_deterministic():
                 bad.append('line %d: %s' % (x.lineno, nm))
         if isinstance(x, (ast.Global, ast.Nonlocal)):
             bad.append('line %d: %s' % (x.lineno, ast.unparse(x)))
+    bad += module_level_state(tree)
     out.append(Ob('deterministic:analytic.py', 'EoN/analytic.py:(module)', 'determinism', 'refuted' if bad else 'discharged',
                   'scan of the AST for draw sites / global state (all inputs)', 0.0, detail='; '.join(bad[:5]),
                   site='EoN/analytic.py', witness=dict(sites=bad[:10]) if bad else None, engine='E2',
@@ -30,6 +90,18 @@ def run(tier, seed):
         rep.add(ob)
     for ob in analytic_is_deterministic():
         rep.add(ob)
+    for ob in frames.rhs_obligations():          # the callers' objects handed to the ODE right-hand sides through `args` are only read
+        rep.add(ob)
+    for rel in ('EoN/simulation.py', 'EoN/auxiliary.py', 'EoN/__init__.py', 'EoN/simulation_investigation.py'):
+        try:
+            src, tree = Source.get(rel)
+        except Exception:
+            continue
+        bad = module_level_state(tree)
+        rep.add(Ob('no-module-level-state:%s' % rel, '%s:(module)' % rel, 'determinism', 'refuted' if bad else 'discharged',
+                   'scan of the AST for writes into module-level objects / memoising decorators (all inputs)', 0.0, detail='; '.join(bad[:5]),
+                   site=rel, witness=dict(sites=bad[:10]) if bad else None, engine='E2',
+                   replay_note='no function writes into a module-level object' if not bad else 'module-level state found'))
     rep.functions.append(dict(file='EoN/simulation.py, EoN/analytic.py, EoN/auxiliary.py', qualname='(every public function x every parameter)'))
     rep.explanation = ('For every public function of the three modules and each of its parameters: no object reachable from the parameter '
                        'is the receiver of a mutating operation, directly or through a callee (summaries to a fixpoint). With the absence '
